@@ -174,7 +174,7 @@ QUIET = []       # sheets that never abort
 
 def probe_sheets(impl):
     """Which pool sheets abort on a new transformer (some planned abort kinds only warn in this library)."""
-    lines = ["H s%d T%d,0;T%d,1" % (i, i, i) for i in range(len(P.SHEETS))]
+    lines = ["H s%d %s" % (i, ";".join("T%d,%d" % (i, d) for d in OK_SOURCES)) for i in range(len(P.SHEETS))]
     res, err = run_harness(impl, lines, jobs=4)
     FAILING[:] = [i for i in range(len(P.SHEETS)) if any(x["status"] != 0 for x in res.get("s%d" % i, []))]
     QUIET[:] = [i for i in range(len(P.SHEETS)) if i not in FAILING]
@@ -192,12 +192,24 @@ def gen_history(ctx, maxlen, allow_form_switch):
         x = r.random()
         if prefer_ok:
             return r.choice(OK_SHEETS)
-        if x < 0.56 and FAILING:
+        if x < 0.63 and FAILING:
             return r.choice(FAILING)
         return r.choice(QUIET)
 
-    def source():
+    def source(sh=None):
+        if sh is not None and "error-in-" in P.SHEETS[sh][1] and r.random() < 0.75:
+            return r.choice(P.FAIL_SOURCES)      # the node that makes the facility fail mid-use comes last
         return r.choice(BAD_SOURCES) if r.random() < 0.07 else r.choice(OK_SOURCES)
+
+    def follower(sh):
+        """after an abort inside a facility with internal caches, a sheet that uses the same facility
+        (same data-type, fewer or equal keys / nodes included), on a source without the failing node"""
+        fac = P.facility_of(P.SHEETS[sh][1])
+        if fac is None or r.random() < 0.25:
+            return r.choice(OK_SHEETS), source()
+        tag = r.choice(P.FACILITY[fac])
+        idx = [i for i, t in enumerate(P.SHEETS) if t[1] == tag][0]
+        return idx, r.choice([d for d in OK_SOURCES if d not in P.FAIL_SOURCES])
     for _ in range(r.randrange(0, 4)):
         if r.random() < 0.5:
             ops.append("c%d" % sheet()); ncs += 1
@@ -206,21 +218,29 @@ def gen_history(ctx, maxlen, allow_form_switch):
     n = r.randrange(4, maxlen + 1)
     while len(ops) < n:
         x = r.random()
-        if x < 0.58 or last_failed:
-            follow = last_failed and r.random() < 0.75     # a failure is followed by a success that could observe a leak
+        if x < 0.58 or last_failed is not False:
+            if last_failed is not False and r.random() < 0.8:
+                # a failure is directly followed by successes that could observe a leak
+                s, d = follower(last_failed)
+                ops.append("T%d,%d" % (s, d))
+                if r.random() < 0.4:
+                    s2, d2 = follower(last_failed)
+                    ops.append("T%d,%d" % (s2, d2))
+                last_failed = False
+                continue
             last_failed = False
             form = r.choice("tTTuv") if ncs and nps else "T"
-            s = sheet(prefer_ok=follow)
+            s = sheet()
             if form == "t":
                 ops.append("t%d,%d" % (r.randrange(ncs), r.randrange(nps)))
             elif form == "T":
-                ops.append("T%d,%d" % (s, source()))
+                ops.append("T%d,%d" % (s, source(s)))
             elif form == "u":
                 ops.append("u%d,%d" % (r.randrange(ncs), source()))
             else:
                 ops.append("v%d,%d" % (s, r.randrange(nps)))
-            if s in FAILING and form in "Tv":
-                last_failed = r.random() < 0.8
+            if s in FAILING and form in "Tv" and r.random() < 0.8:
+                last_failed = s
         elif x < 0.70:
             name = r.choice(NAMES)
             if r.random() < 0.7:
@@ -262,6 +282,15 @@ CORPUS = [
     ["c6", "p0", "sp=0", "nq=5", "t0,0", "T16,0", "t0,0", "T12,0", "t0,0", "x", "t0,0", "i1", "c7", "t1,0", "T17,1", "t1,0", "r1", "t1,0", "d0", "t1,0", "e0"],
     ["c11", "q1", "sp=2", "t0,0", "T16,1", "t0,0", "v21,0", "t0,0", "u0,4", "t0,0", "sp=4", "t0,0", "x", "t0,0"],
     ["o2", "T5,0", "T25,0", "T5,0", "o0", "T9,0", "T13,2", "T9,0"],
+    # an abort INSIDE a facility with internal caches, then users of the same facility with the same
+    # data-type and fewer-or-equal keys / nodes (node sorter: text, number, two keys, lang; counters; key tables; format-number)
+    ["T32,6", "T29,0", "T29,8", "T32,8", "T33,6", "T30,0", "T30,8", "T33,8"],
+    ["T33,7", "T30,8", "T32,7", "T29,8", "T31,6", "T35,6", "T31,8", "T29,2"],
+    ["c32", "c33", "c29", "c30", "p6", "p8", "p0", "t0,0", "t2,1", "t2,2", "t1,0", "t3,1", "t3,2", "q7", "t0,3", "t2,1"],
+    ["T34,6", "T34,8", "T4,0", "T34,6", "T30,8", "T29,8"],
+    ["T36,6", "T1,0", "T36,8", "T36,7", "T10,0", "T1,8"],
+    ["T37,6", "T0,0", "T37,8", "T37,7", "T8,0", "T0,8"],
+    ["T38,6", "T39,0", "T38,8", "T39,8", "T38,7", "T39,6"],
 ]
 
 
